@@ -34,6 +34,11 @@ namespace OP2Utility::Tileset
 				". Pixel Height must be a multiple of " + std::to_string(DefaultPixelHeightMultiple) + ".");
 		}
 
+		// The pixel height is stored in a signed 32 bit field once loaded into a bitmap
+		if (pixelHeight > INT32_MAX) {
+			throw std::runtime_error("Tileset property Pixel Height reads " + std::to_string(pixelHeight) + ", which is too large.");
+		}
+
 		if (tagCount != DefaultTagCount) {
 			throwReadError("Header tag count", tagCount, DefaultTagCount);
 		}
